@@ -5,7 +5,7 @@
     domain where gosk's form selection is right; the companion refutation and the known-findings
     file delimit the rest. *)
 From Coq Require Import List ZArith String Bool.
-From Gosk Require Import Base.Bytes Model.Asm Spec.Branch Generated.Tables Lemmas.BranchLemmas.
+From Gosk Require Import Base.Bytes Model.Eval Model.Asm Spec.Branch Generated.Tables Lemmas.BranchLemmas.
 Import ListNotations.
 Local Open Scope Z_scope.
 
